@@ -712,9 +712,32 @@ class BlePairing(AbstractPairing):
             )
             # We had a successful decrypt, so we can update the state_num
             self.description.state_num = gsn
-            char = self.accessories.aid(BLE_AID).characteristics.iid(iid)
+            accessory = self.accessories.aid_or_none(BLE_AID) if self.accessories else None
+            char = accessory.characteristics.iid(iid) if accessory else None
+            if char is None:
+                # The accessory database may have changed since it was cached; never
+                # raise into the scanner callback, poll the accessory instead.
+                logger.debug(
+                    "%s: Notification for unknown characteristic iid=%s, "
+                    "falling back processing as disconnected event",
+                    self.name,
+                    iid,
+                )
+                self._process_disconnected_events()
+                return
+            try:
+                decoded = from_bytes(char, value)
+            except (struct.error, UnicodeDecodeError, ValueError) as ex:
+                logger.debug(
+                    "%s: Notification value %s for iid=%s cannot be decoded: %s",
+                    self.name,
+                    value,
+                    iid,
+                    ex,
+                )
+                return
 
-            results = {(BLE_AID, iid): {"value": from_bytes(char, value)}}
+            results = {(BLE_AID, iid): {"value": decoded}}
             logger.debug("%s: Received notification: results = %s", self.name, results)
 
             self._callback_listeners(results)
